@@ -955,8 +955,19 @@ func (c *Conn) handleBdat(arg string) {
 		return
 	}
 
+	// A refused BDAT command is still followed by its chunk, which must not
+	// be interpreted as commands.
+	discardChunk := func() {
+		if n, err := strconv.ParseUint(args[0], 10, 32); err == nil {
+			c.lineLimitReader.LineLimit = 0
+			io.Copy(ioutil.Discard, io.LimitReader(c.text.R, int64(n)))
+			c.lineLimitReader.LineLimit = c.server.MaxLineLength
+		}
+	}
+
 	if !c.fromReceived || len(c.recipients) == 0 {
 		c.writeResponse(502, EnhancedCode{5, 5, 1}, "Missing RCPT TO command.")
+		discardChunk()
 		return
 	}
 
@@ -964,6 +975,7 @@ func (c *Conn) handleBdat(arg string) {
 	if len(args) == 2 {
 		if !strings.EqualFold(args[1], "LAST") {
 			c.writeResponse(501, EnhancedCode{5, 5, 4}, "Unknown BDAT argument")
+			discardChunk()
 			return
 		}
 		last = true
